@@ -254,11 +254,11 @@ pub fn eval(expr: Node) -> Result<Number, Box<dyn error::Error>> {
                             }
                         }
                     }
-                    Number::Float(value_b) => Ok(Number::from((value_a as f64) / value_b)),
+                    Number::Float(value_b) => Ok(Number::from((value_a as f64).powf(value_b))),
                 },
                 Number::Float(value_a) => match b {
-                    Number::Integer(value_b) => Ok(Number::from(value_a / (value_b as f64))),
-                    Number::Float(value_b) => Ok(Number::from(value_a / value_b)),
+                    Number::Integer(value_b) => Ok(Number::from(value_a.powf(value_b as f64))),
+                    Number::Float(value_b) => Ok(Number::from(value_a.powf(value_b))),
                 },
             }
         }
